@@ -282,7 +282,7 @@ STATEFUL = {
     # key: (needs atom-count check in Python?, reason if not)
     "xtc": (True, ""), "trr": (True, ""), "dcd": (True, ""), "dtr": (True, ""), "mdcrd": (True, ""),
     "h5": (False, "PyTables EArray.append rejects a frame block whose trailing shape differs"),
-    "nc": (False, "netCDF variable assignment rejects a block whose atom dimension differs"),
+    "nc": (True, ""),      # slice assignment into a netCDF variable *broadcasts* a one-atom block: the backend cannot be relied upon
 }
 CELL_STATE = {"xtc": "with_unitcell", "trr": "with_unitcell", "dcd": "with_unitcell", "mdcrd": "_w_has_box",
               "h5": "get_node", "nc": "variables"}
